@@ -15,6 +15,7 @@ import ThaiLintModel.C08.Drv
 import ThaiLintModel.C09.Drv
 import ThaiLintModel.C10.Drv
 import ThaiLintModel.C12.Drv
+import ThaiLintModel.C13.Drv
 import ThaiLintModel.C14.Drv
 import ThaiLintModel.C15.Drv
 import ThaiLintModel.C16.Drv
@@ -36,6 +37,7 @@ def dispatch (j : Json) : Json :=
   | "C09" => ThaiLintModel.C09.handle j
   | "C10" => ThaiLintModel.C10.handle j
   | "C12" => ThaiLintModel.C12.handle j
+  | "C13" => ThaiLintModel.C13.handle j
   | "C14" => ThaiLintModel.C14.handle j
   | "C15" => ThaiLintModel.C15.handle j
   | "C16" => ThaiLintModel.C16.handle j
